@@ -7,15 +7,21 @@ from ..srules.core import SourceIndex
 
 def main(ctx):
     ctx.explanation = (
-        "Engine S: (1) axis-space typing (D = dimension order, L = level order, Perm = mode ordering) of tensor.py, "
-        "_cffi_ownership.py and every module that converts between user order and storage order: every subscript and every "
-        "declared sink is checked for the right space, so coordinates permuted into level order are mapped back with the inverse "
-        "permutation; (2) canonical structure (sorted, duplicate-free, duplicates accumulate); (3) mapping consumption (no arm "
-        "of the mode dispatch silently drops keys); (4) validation dominates construction, pickling writer/reader agreement; "
-        "(5) ordering must be a permutation before anything is built."
+        "Engine S. (1) Abstract evaluation over a SYMBOLIC stored structure (vf/srules/structsem.py, symeval + symint): for every "
+        "format up to order 3 the readers (taco_indices, taco_vals, items) and the validator taco_structure_to_cffi are interpreted "
+        "with symbolic dimension sizes and arrays of unknown content/length; position counts, slice bounds, visited ranges, the "
+        "value position and the reported coordinate are compared as polynomials in normal form with the format's recurrences; on "
+        "the validator's accepting path the assumptions must contain every clause of the canonical form, every other path raises "
+        "ValueError, nothing is built before validation. (2) Tensor.from_aos is interpreted over SYMBOLIC coordinates and values "
+        "(up to 3 entries, formats up to order 2): each path is an order type of the coordinates relative to each other and to the "
+        "dimension bounds; for every integer witness of the path the structure handed to the validator must be the canonical one "
+        "(sorted, duplicate-free, duplicates summed, zeros for absent dense cells) and an out-of-range coordinate must not get "
+        "through. (3) Constructors, to_format, to_dok and pickling pass their data on unchanged; orderings must be permutations. "
+        "(4) Axis-space typing (D = dimension order, L = level order, Perm) of every conversion between user and storage order. "
+        "(5) Every Tensor(...) is built from a validated or kernel-allocated structure."
     )
     ctx.assumptions = [
-        "arithmetic of duplicate summation and float identity through pickling are not decided",
+        "floating-point rounding of duplicate summation and float identity through pickling are not decided; entry counts > 3 and orders > 3 (readers) / > 2 (construction) are not enumerated",
         "attribute-space table and seeds in vf/srules/axis.py (receiver types from annotations)",
     ]
     ix = SourceIndex(ctx.src)
@@ -24,6 +30,7 @@ def main(ctx):
     structsem.rule_construction_semantics(ctx, ix)
     structsem.rule_structure_semantics(ctx, ix)
     tensorapi.rule_validation_dominates(ctx, ix)
+    structsem.rule_api_semantics(ctx, ix)
 
 
 if __name__ == "__main__":
